@@ -91,19 +91,77 @@ theorem saveExtOp_good {w : World} {v : Volatile} (h : Good w.D v) :
     · exact ⟨hD, fun _ => hS1⟩
     · exact ⟨hD.putMeta hS.max_ge_meta, fun _ => hS2⟩
 
+/-- index compaction: its manifest commit moves the committed index toward the stored documents,
+whatever the outcome; the handle stays in sync (and is never poisoned) -/
+theorem compactOp_good {w : World} {v : Volatile} {ix : Nat} {commits dirtied : Bool} (h : Good w.D v) :
+    Good (compactOp w v ix commits dirtied).1.D (compactOp w v ix commits dirtied).2.1 := by
+  unfold compactOp
+  by_cases hdead : v.dead = true
+  · rw [if_pos hdead]; exact h
+  have hdead : v.dead = false := by simpa using hdead
+  rw [if_neg (by simp [hdead])]
+  by_cases hc : commits = true
+  · rw [if_neg (by simp [hc])]
+    obtain ⟨hD, hS⟩ := h
+    have hS := hS hdead
+    dsimp only
+    split
+    · simp only [reject_D]; exact ⟨hD, fun _ => hS⟩
+    · have hx : ∀ id k, v.idx id k = keysOf (w.D.docs id) k := hS.idx_eq
+      -- the committed state
+      have hDc : DurInv (commitIdx ix v.idx w.D) :=
+        hD.idx_toward ⟨rfl, rfl, rfl, rfl, rfl, rfl⟩ (by
+          intro id k
+          by_cases hk : k.1 = ix
+          · right; simp [commitIdx, hk, hx]
+          · left; simp [commitIdx, hk])
+      have hSc : ∀ dirty' : List Nat, (∀ j, j ∉ dirty' → j = ix ∨ j ∉ v.dirty) →
+          SyncV (commitIdx ix v.idx w.D) { v with dirty := dirty' } := by
+        intro dirty' hd
+        obtain ⟨⟨⟨h1, h2, h3, h4, h5, h6, h7, h8⟩, h9⟩, h10⟩ := hS
+        refine ⟨⟨⟨h1, h2, h3, h4, h5, h6, ?_, h8⟩, h9⟩, h10⟩
+        intro j hj id k hk
+        by_cases hji : k.1 = ix
+        · simp [commitIdx, hji]
+        · simp only [commitIdx, hji, if_false]
+          rcases hd j hj with h | h
+          · exact absurd (hk.trans h) hji
+          · exact h7 j h id k hk
+      rcases attempt_cases ({ w with preFail := false } : World) (.ixc ix) (commitIdx ix v.idx) with ⟨hok, hDD⟩ | ⟨hno, hDD⟩
+      · rw [if_pos hok, hDD]
+        refine ⟨hDc, fun _ => hSc _ ?_⟩
+        intro j hj
+        by_cases hji : j = ix
+        · exact Or.inl hji
+        · right; intro hm; exact hj (by simp [List.mem_filter, hm, hji])
+      · rw [if_neg (by simp [hno])]
+        rcases hDD with h | h <;> simp only [h]
+        · exact ⟨hD, fun _ => hS⟩
+        · refine ⟨hDc, fun _ => ?_⟩
+          have := hSc v.dirty (fun j hj => Or.inr hj)
+          cases v; exact this
+  · have hc : commits = false := by simpa using hc
+    rw [if_pos (by simp [hc])]
+    split
+    · -- only marked dirty: a larger dirty set weakens nothing
+      refine ⟨h.1, fun _ => ?_⟩
+      obtain ⟨⟨⟨h1, h2, h3, h4, h5, h6, h7, h8⟩, h9⟩, h10⟩ := h.2 hdead
+      exact ⟨⟨⟨h1, h2, h3, h4, h5, h6, fun j hj => h7 j (fun hm => hj (by simp [hm])), h8⟩, h9⟩, h10⟩
+    · exact h
+
 theorem reopenOp_good {w : World} {now : Nat} (hD : DurInv w.D) :
     DurInv (reopenOp w now).1.D ∧
       ∀ v, (reopenOp w now).2.1 = some v → v.dead = false ∧ SyncV (reopenOp w now).1.D v := by
   unfold reopenOp
   dsimp only
   have hr := recoverV_good hD
-  obtain ⟨g1, _, g3⟩ := flushInner_good (w := { w with off := false, metaStale := false, preFail := false }) now hD hr.sync
-  cases hf : (flushInner { w with off := false, metaStale := false, preFail := false } (recoverV w.D) now).2.2 with
+  obtain ⟨g1, _, g3⟩ := flushInner_good (w := { w with off := false, metaStale := false, preFail := false, ixStale := [] }) now hD hr.sync
+  cases hf : (flushInner { w with off := false, metaStale := false, preFail := false, ixStale := [] } (recoverV w.D) now).2.2 with
   | some b =>
     simp only [hf]
     refine ⟨g1, ?_⟩
     intro v hv
-    have hv : (flushInner { w with off := false, metaStale := false, preFail := false } (recoverV w.D) now).2.1 = v := by simpa using hv
+    have hv : (flushInner { w with off := false, metaStale := false, preFail := false, ixStale := [] } (recoverV w.D) now).2.1 = v := by simpa using hv
     subst hv
     have ok := g3 (by simp [hf])
     have ha := hr.alive
@@ -136,6 +194,7 @@ theorem step_inv {s : State} (op : Op) (h : Inv s) : Inv (step s op).1 := by
   | flush now => exact lift_inv _ (fun _ _ hg => flushOp_good hg) h
   | close now => exact lift_inv _ (fun _ _ hg => closeOp_good hg) h
   | saveExt => exact lift_inv _ (fun _ _ hg => saveExtOp_good hg) h
+  | compact ix c d => exact lift_inv _ (fun _ _ hg => compactOp_good hg) h
   | reopen now =>
     simp only [step]
     obtain ⟨g1, g2⟩ := reopenOp_good (w := s.w) (now := now) h.1
@@ -156,12 +215,12 @@ theorem run_append (s : State) (a b : List Op) : run s (a ++ b) = run (run s a) 
 
 /-! ### a world without faults -/
 
-def Quiet (w : World) : Prop := w.off = false ∧ w.sched = [] ∧ w.metaStale = false
+def Quiet (w : World) : Prop := w.off = false ∧ w.sched = [] ∧ w.metaStale = false ∧ w.ixStale = []
 
 theorem attempt_quiet {w : World} (h : Quiet w) (e : Ev) (f : Durable → Durable) :
     (w.attempt e f).2 = true ∧ Quiet (w.attempt e f).1 ∧ (w.attempt e f).1.D = f w.D := by
-  obtain ⟨h1, h2, h3⟩ := h
-  simp [World.attempt, h1, h2, h3, Quiet]
+  obtain ⟨h1, h2, h3, h4⟩ := h
+  simp [World.attempt, h1, h2, h3, h4, Quiet]
 
 theorem attemptAll_quiet : ∀ (fs : List (Ev × (Durable → Durable))) {w : World}, Quiet w →
     (w.attemptAll fs).2 = true ∧ Quiet (w.attemptAll fs).1 := by
@@ -184,14 +243,24 @@ theorem flushStep_quiet (now : Nat) (pm pi pu : Bool) (c : FlushCtx) (s : FlushS
   | indexes =>
     simp only
     split
-    · obtain ⟨a, b⟩ := attemptAll_quiet ((dirtyIxs c.v).map (fun ix => (Ev.ixc ix, commitIdx ix c.v.idx))) hq
-      simp only [a, if_true]; exact ⟨b, by triv⟩
+    · have hpre : ∀ l : List Nat, l.takeWhile (fun ix => !c.w.ixStale.contains ix) = l := by
+        intro l
+        induction l with
+        | nil => rfl
+        | cons a r ih =>
+          have hs : c.w.ixStale = [] := hq.2.2.2
+          rw [hs] at ih ⊢
+          simp only [List.takeWhile, List.contains_nil, Bool.not_false]
+          exact congrArg _ ih
+      rw [hpre]
+      obtain ⟨a, b⟩ := attemptAll_quiet ((dirtyIxs c.v).map (fun ix => (Ev.ixc ix, commitIdx ix c.v.idx))) hq
+      simp only [a, if_true, beq_self_eq_true]; exact ⟨b, by triv⟩
     · exact ⟨hq, hf⟩
   | metaPut =>
     simp only
     split
     · obtain ⟨a, b, _⟩ := attempt_quiet hq .metaPut (putMeta c.v.maxId c.v.version)
-      rw [if_neg (by simp [hq.2.2])]
+      rw [if_neg (by simp [hq.2.2.1])]
       simp only [a, if_true]; exact ⟨b, by triv⟩
     · exact ⟨hq, hf⟩
   | idsPut =>
